@@ -5,16 +5,24 @@ const S: [u32; 64] = [
     21, 6, 10, 15, 21, 6, 10, 15, 21, 6, 10, 15, 21,
 ];
 fn k(i: usize) -> u32 {
-    // floor(2^32 * abs(sin(i+1)))
-    ((i as f64 + 1.0).sin().abs() * 4294967296.0) as u32
+    // floor(2^32 * abs(sin(i+1))), computed once
+    static K: std::sync::OnceLock<[u32; 64]> = std::sync::OnceLock::new();
+    K.get_or_init(|| {
+        let mut t = [0u32; 64];
+        for (j, x) in t.iter_mut().enumerate() {
+            *x = ((j as f64 + 1.0).sin().abs() * 4294967296.0) as u32;
+        }
+        t
+    })[i]
 }
 pub fn md5(msg: &[u8]) -> [u8; 16] {
     let mut a0: u32 = 0x67452301;
     let mut b0: u32 = 0xefcdab89;
     let mut c0: u32 = 0x98badcfe;
     let mut d0: u32 = 0x10325476;
-    let mut m = msg.to_vec();
     let bitlen = (msg.len() as u64).wrapping_mul(8);
+    let mut m = Vec::with_capacity(msg.len() + 72);
+    m.extend_from_slice(msg);
     m.push(0x80);
     while m.len() % 64 != 56 {
         m.push(0);
